@@ -649,6 +649,11 @@ def ens_build(cfg, kind, nested, mapper):
     dim = 2
     if kind == 'B3':
         s = BuckshotSolver(dim, npts=3)
+    elif kind == 'S3':          # start points come from fillpts (diffev on the python `random` stream)
+        from mystic.solvers import SparsitySolver
+        s = SparsitySolver(dim, npts=3)
+    elif kind == 'Li6':         # integer nbins: randomly_bin orders the factors over the axes with random()
+        s = LatticeSolver(dim, nbins=6)
     elif kind[0] == 'L' and kind[1:].isdigit() and len(kind) == 3:     # 'L22', 'L21', 'L33': bins per axis
         s = LatticeSolver(dim, nbins=(int(kind[1]), int(kind[2])))
     else:
@@ -858,7 +863,12 @@ def mode_cfgs(ctx):
         ({'name': 'C6', 'cost': 'sphere', 'box': [[-0.7, -0.4], [1.3, 1.6]], 'term': 'vtr8', 'limits': [80, None], 'evalmon': True,
           'seed': 206 + 5 * sd}, ('L33',)),
     ]
+    # ensembles whose start points are drawn from the python `random` stream that building the members also uses
+    out.append(({'name': 'C8', 'cost': 'sphere', 'box': 'unit', 'term': 'never', 'limits': [3, None], 'evalmon': False, 'seed': 208 + 5 * sd},
+                ('S3', 'Li6')))
     if ctx.thorough:
+        out.append(({'name': 'C9', 'cost': 'rosen', 'box': 'shift', 'term': 'cog', 'limits': [6, None], 'evalmon': True, 'seed': 209 + 5 * sd},
+                    ('S3', 'Li6')))
         out.append(({'name': 'C7', 'cost': 'sphere', 'box': [[-0.7, -0.4], [1.3, 1.6]], 'term': 'vtr8', 'limits': None, 'evalmon': False,
                      'seed': 207 + 5 * sd}, ('L33', 'L21')))
     return out
@@ -923,6 +933,119 @@ def _stop_kinds(ref):
         return 'exception in the serial default: %s' % (res[0],)
     msg = (traj[-1][0] or '') if traj else '?'
     return '%s after %d ensemble steps, member generations %s' % (msg.split(' ')[0], len(traj), [m[4] for m in res[2]])
+
+
+# ====================================================================== (D) no state shared between solver instances
+# Configuration A alone in a fresh process versus "some other solver B configured and run first, then A" in one
+# process: A's settings state, trajectory and random-generator state must not depend on B (module-level caches,
+# class attributes, anything that outlives a solver instance).  Every scenario runs in a process forked from the
+# still pristine parent (before the parent itself has built any solver), so "alone" really is alone.
+def iso_base(ctx):
+    # the optimum of the cost lies outside the box: every solver keeps pushing candidates across the faces
+    return {'name': 'D0', 'cost': 'sphere', 'init': 'point', 'x0': [-2.0, -1.0], 'box': 'neg', 'clip': True, 'con': None, 'pen': 'quad',
+            'term': 'never', 'limits': [4, None], 'seed': 301 + 3 * ctx.seed}
+
+
+ISO_SETTINGS = [   # (setting, value in A, value in B): A and B differ in this one setting only (same bounds, same seed)
+    ('clip', True, False), ('clip', False, True), ('clip', True, None), ('clip', None, True), ('clip', False, None), ('clip', None, False),
+    ('tight', True, None), ('tight', None, True),
+    ('con', None, 'tie/pure'), ('con', 'tie/pure', None),
+    ('pen', 'quad', None), ('pen', None, 'quad'),
+    ('term', 'never', 'cog1'), ('term', 'cog1', 'never'),
+]
+ISO_OTHER_CLASS = {'NM': 'DE2', 'Powell': 'NM', 'DE': 'Powell', 'DE2': 'DE'}
+
+
+def _iso_variant(base, solver, setting, value):
+    v = dict(base, solver=solver, dim=2)
+    if setting == 'tight':
+        v['clip'] = None        # SetStrictRanges rejects clip together with tight=False; tight is varied on the default clip
+    v[setting] = value
+    v['nsteps'] = 5
+    return v
+
+
+def iso_scenarios(ctx):
+    """-> list of (key of A, A, B or None)"""
+    base = iso_base(ctx)
+    out, seen = [], set()
+    for solver in solverlab.SOLVERS:
+        pairs = [(st, a, b, solver) for st, a, b in ISO_SETTINGS]
+        pairs += [('clip', False, True, ISO_OTHER_CLASS[solver]), ('clip', True, False, ISO_OTHER_CLASS[solver])]   # B is another solver class
+        for st, a, b, bsolver in pairs:
+            A = _iso_variant(base, solver, st, a)
+            B = _iso_variant(base, bsolver, st, b)
+            ka = '%s:%s=%s' % (solver, st, a)
+            if ka not in seen:
+                seen.add(ka)
+                out.append((ka, A, None))
+            out.append((ka, A, B))
+    return out
+
+
+def _iso_task(item):
+    """runs in a freshly forked process: [B,] then A; returns A's observations"""
+    key, A, B = item
+    try:
+        import warnings
+        warnings.filterwarnings('ignore')
+        rb = run_config(B, CALLS_Q) if B is not None else None
+        ra = run_config(A, CALLS_Q, want='full')
+        return (key, None, {'traj': ra['traj'], 'rng_end': ra['rng_end'], 'canon': ra['canons'][len(CALLS_Q)], 'raw_traj': ra['raw_traj'],
+                            'raw_canon': ra['raw_canons'][len(CALLS_Q)], 'nsteps': ra['nsteps_run'],
+                            'b_traj': rb['traj'] if rb else None})
+    except BaseException:
+        import traceback
+        return (key, traceback.format_exc(), None)
+
+
+def _fresh_map(tasks, nproc):
+    import multiprocessing as mp
+    with mp.get_context('fork').Pool(max(1, min(nproc, len(tasks))), maxtasksperchild=1) as pool:
+        return pool.map(_iso_task, tasks, 1)
+
+
+def part_isolation(ctx, T, scenarios=None):
+    from mc import runner
+    sc = scenarios if scenarios is not None else iso_scenarios(ctx)
+    res = _fresh_map(sc, runner.NPROC)
+    alone = {}
+    for (key, A, B), (k2, err, r) in zip(sc, res):
+        if err:
+            T.notes.append('HARNESS-FAULT in isolation scenario %s:\n%s' % (key, err))
+            T.count('harness_faults')
+            continue
+        T.count('traces'); T.count('transitions', len(CALLS_Q) * (2 if B else 1) + r['nsteps'])
+        if B is None:
+            alone[key] = r
+            T.state(('D', key, r['traj']))
+    for (key, A, B), (k2, err, r) in zip(sc, res):
+        if err or B is None or key not in alone:
+            continue
+        ref = alone[key]
+        setting = [k for k in ('clip', 'tight', 'con', 'pen', 'term') if A.get(k) != B.get(k)]
+        setting = setting[0] if setting else '?'
+        T.count('D_pairs')
+        T.nontriv(('D', key, B['solver'], setting, repr(B.get(setting))))
+        T.hist('D_B_alone_behaves_differently_from_A', '%s:%s' % (setting, 'yes' if r['b_traj'] != ref['traj'] else 'no'))
+        bad = []
+        if r['canon'] != ref['canon']:
+            field, text = _first_canon_diff(r['raw_canon'], ref['raw_canon'])
+            bad.append(('settings_state', field, text))
+        if r['traj'] != ref['traj']:
+            field, text = _first_traj_diff(r['raw_traj'], ref['raw_traj'])
+            bad.append(('trajectory', field, text))
+        elif r['rng_end'] != ref['rng_end']:
+            bad.append(('rng_state_after_run', 'random generator', 'the owned random generator ends in a different state'))
+        T.hist('D_outcome', 'independent' if not bad else 'DEPENDS on the earlier solver')
+        for clause, field, text in bad:
+            T.violate({'part': 'D', 'clause': clause, 'solver': A['solver'], 'differs_in': setting, 'A_value': repr(A.get(setting)),
+                       'B_value': repr(B.get(setting)), 'B_other_class': B['solver'] != A['solver'], 'field': field},
+                      {'part': 'D', 'key': key, 'A': A, 'B': B},
+                      '%s configured with %s=%r behaves differently when a %s with %s=%r (same bounds, same seed) was configured and run '
+                      'earlier in the same process: %s (after B vs alone) [A=%s]'
+                      % (A['solver'], setting, A.get(setting), B['solver'], setting, B.get(setting), text, _short(A)))
+    T.sample({'part': 'D', 'A': sc[0][1], 'B': sc[1][2]}, 1)
 
 
 # ====================================================================== dispatch / run / replay
@@ -1058,6 +1181,9 @@ def plan(ctx):
         for kind in mkinds:
             for nested in ('NM', 'Powell'):
                 items.append(('Cm', (cfg, kind, nested)))
+                if kind == 'Li6':       # which axis gets which factor is one random ordering: three more seeds
+                    for k in (1, 2, 3):
+                        items.append(('Cm', (dict(cfg, name='%s.%d' % (cfg['name'], k), seed=cfg['seed'] + 1000 * k), kind, nested)))
     info['C drive-mode-only configurations'] = [(c['name'], list(k)) for c, k in mode_cfgs(ctx)]
     first = set()
     for cfg, kind, nested, mode, mapkind, bound, mp, fixes in cplan:
@@ -1072,6 +1198,8 @@ def plan(ctx):
 
 def run(ctx):
     parts = os.environ.get('VERIF_PARTS')
+    if not parts or 'D' in parts.split(','):
+        part_isolation(ctx, ctx.tally)        # first: the parent has not built a single solver yet
     items, info, active_tab = plan(ctx)
     if parts:
         items = [it for it in items if it[0][0] in parts.split(',')]
@@ -1083,6 +1211,7 @@ def run(ctx):
     items.sort(key=lambda it: order[it[0]])
     ctx.bounds = {'A_calls_quick': list(CALLS_Q), 'A_calls_thorough': list(CALLS_T), 'A_steps': NSTEPS,
                   'A_variants': variants(ctx), 'A_diamonds_per_lattice': info, 'A_calls_that_change_the_run': active_tab,
+                  'D_base': iso_base(ctx), 'D_pairs(setting, A, B)': ISO_SETTINGS, 'D_other_class_B': ISO_OTHER_CLASS,
                   'B_configs': de2_cfgs(ctx), 'C_configs': ens_cfgs(ctx), 'C_drive_mode_configs': [dict(c, ensembles=list(k)) for c, k in mode_cfgs(ctx)],
                   'C_drive_modes': ['Solve()', 'Solve(step=True)', 'while True: msg = Step() until msg', 'while not Terminated(): Step()'], 'ensembles': ['Lattice(2,1)', 'Buckshot(3)', 'Lattice(2,2)'],
                   'nested': ['NelderMeadSimplexSolver', 'PowellDirectionalSolver'], 'shards': len(items)}
@@ -1092,7 +1221,7 @@ def run(ctx):
                 "per map call within the deviation bound, sharing and dill-copying map; (C) every member order per map call (deviation bound "
                 "across calls), Solve / Solve(step=True) / manual Step loop, sharing / copying map, and every baton-thread schedule with hand-offs "
                 "at member Step boundaries within the preemption bound; under the serial default map the four drive modes (C_drive_modes) are compared in result, per-member counters, monitors and call logs on every configuration, including one without any evaluation limits whose members need far more than 10*nDim iterations and one with a member that terminates at generation 0. In (B),(C) a schedule is non-trivial when it differs from the serial order. "
-                "states = distinct (configuration, outcome digest) pairs: the *_digest_by_config histograms must show one digest per configuration.")
+                "(D) every (solver, A, B) with A and B differing in one setting: A alone in a fresh process vs B-then-A in one process. states = distinct (configuration, outcome digest) pairs: the *_digest_by_config histograms must show one digest per configuration.")
     ctx.assumptions = ["the copying map (dill copies of function, arguments and results) stands in for a process pool; real OS scheduling is not explored",
                        "thread schedules are explored at member-Step granularity (one thread runs at a time)",
                        "map results are returned in index order (the map contract)",
@@ -1133,6 +1262,10 @@ def replay(case):
         cfg = case['cfg']
         # the whole recorded schedule is the fixed prefix, nothing is explored below it
         T = shard_de2((cfg, case['mapkind'], case['nsteps'], sum(1 for c in case['choices'] if c), list(case['choices'])))
+    elif part == 'D':
+        class _C(object):
+            seed = 0
+        part_isolation(_C, T, [(case['key'], case['A'], None), (case['key'], case['A'], case['B'])])
     elif part == 'C':
         cfg = case['cfg']
         fix = list(case.get('fix', [])) + list(case.get('choices', []))
